@@ -440,7 +440,7 @@ func runC13(c *Ctx, r *Report) {
 
 func init() {
 	register("C13", &propDef{
-		explain: "Substitution-mechanism rules decided on code shape: ast.Modify is a copying rewriter (no store into its input, children-carrying nodes are re-allocated per arm), visits every child field of every node type the parser can build (arms compared with the parser-derived node inventory), expansion evaluates only the macro body and wraps the argument nodes themselves as quotes, unquote results are well-formed nodes, each expansion binds parameters in its own environment and runs on a fully initialised state. That the expanded program evaluates like the hand-substituted one is not decided; printing of the result shares C02's known precedence findings. Also: the definition sweep of DefineMacros keeps the loop index after deleting the element at the index (every path back to the loop test is resolved through the phis).",
+		explain: "Substitution-mechanism rules decided on code shape: ast.Modify is a copying rewriter (no store into its input, children-carrying nodes are re-allocated per arm), visits every child field of every node type the parser can build (arms compared with the parser-derived node inventory), expansion evaluates only the macro body and wraps the argument nodes themselves as quotes, unquote results are well-formed nodes, each expansion binds parameters in its own environment and runs on a fully initialised state. That the expanded program evaluates like the hand-substituted one is not decided; printing of the result shares C02's known precedence findings. Also: the definition sweep of DefineMacros keeps the loop index after deleting the element at the index (every path back to the loop test is resolved through the phis). Also: element stores through a child list shared with the input are rejected, every field of a node is set on the node an arm rebuilds, and (shared C10.R5) recovery does not reset the macro store.",
 		assume:  []string{"call sites are found by the bottom-up traversal of Modify (its recursion order is not checked)", "hygiene is not part of the property"},
 		run:     runC13,
 	})
